@@ -129,6 +129,10 @@ func (t *Telnet) handleControlChars(a *Args) error {
 func (t *Telnet) Open(a *Args) error {
 	var err error
 
+	// data collected while an earlier connection of this object opened belongs to that
+	// connection; never hand it to the readers of this one.
+	t.initialBuf = nil
+
 	t.c, err = net.Dial(tcp, fmt.Sprintf("%s:%d", a.Host, a.Port))
 	if err != nil {
 		return err
